@@ -282,6 +282,14 @@ class Translator:
         if isinstance(e, ast.UnaryOp) and isinstance(e.op, ast.Not):
             b = self.tmp()
             return "(%s <- %s ;; Ok (negb %s))" % (b, self.test(e.operand, ctx), b)
+        if isinstance(e, ast.Compare) and len(e.ops) > 1:
+            # a chained comparison  a < b <= c  is  (a < b) and (b <= c)  with b evaluated once: only for operands that
+            # are effect-free (constants and local names), where evaluating twice cannot be observed
+            operands = [e.left] + list(e.comparators)
+            if any(self.pure(x, ctx) is None for x in operands) or any(type(o) not in CMPOPS for o in e.ops):
+                raise Unmodelled("comparison " + ast.unparse(e))
+            parts = [ast.Compare(left=operands[i], ops=[e.ops[i]], comparators=[operands[i + 1]]) for i in range(len(e.ops))]
+            return self.test(ast.BoolOp(op=ast.And(), values=parts), ctx)
         if isinstance(e, ast.Compare):
             if len(e.ops) != 1 or type(e.ops[0]) not in CMPOPS:
                 raise Unmodelled("comparison " + ast.unparse(e))
